@@ -1023,9 +1023,13 @@ func (w *world) runReelect(r *rng.R) restartRec {
 	if r.Pct(50) {
 		fs[1].PD = true
 	}
+	// store 3 holds a region peer (reported to this member in its earlier term: region cache and region storage) and goes offline
+	opStep(op{K: "region", R: 1, Stores: []uint64{1, 3}})
+	opStep(op{K: "remove", ID: 3})
 	w.reelect(fs)
 	rec.Obs = append(rec.Obs, w.snapshot("ROk"))
 	rec.Steps = append(rec.Steps, hstep{K: "reelect", Foreign: fs})
+	opStep(op{K: "check"})                                                                   // store 3 still holds its peer: it must not be buried
 	opStep(op{K: "heartbeat", ID: 4})                                                        // a tombstone now: refused
 	opStep(op{K: "put", Grpc: true, P: payload{ID: 4, Addr: "a4", Ver: "4.0.0"}})               // refused
 	opStep(op{K: "up", ID: 2})
@@ -1149,6 +1153,45 @@ func (w *world) restart() {
 	if err := w.rc.Start(w.s); err != nil {
 		panic(err)
 	}
+}
+
+// addressReuseCases: store 2 gives its address up (physically destroyed, or removed and buried), a replacement registers there, the
+// record of store 2 is written or removed once more (burial, weight change, label update, heartbeat, tombstone cleanup), and a THIRD
+// store then announces the same address: it must clash with the replacement, whatever happened to the old record in between
+func addressReuseCases() []caseIn {
+	boot := payload{ID: 1, Addr: "a1", Ver: "4.0.0"}
+	put := func(id uint64, addr string) op { return op{K: "put", P: payload{ID: id, Addr: addr, Ver: "4.0.0"}} }
+	var out []caseIn
+	for _, destroyed := range []bool{true, false} {
+		giveUp := []op{put(2, "x"), {K: "remove", ID: 2, PD: destroyed}}
+		if !destroyed {
+			giveUp = append(giveUp, op{K: "check"}) // buried: a tombstone does not occupy its address
+		}
+		var touches [][]op
+		if destroyed {
+			touches = [][]op{
+				{{K: "check"}}, // the background check buries the destroyed store
+				{{K: "weight", ID: 2, LW: 2, RW: 3}},
+				{{K: "labels", ID: 2, Labels: []lab{{"zone", "z"}}, Force: true}},
+				{{K: "heartbeat", ID: 2}},
+				{{K: "check"}, {K: "clean"}},
+			}
+		} else {
+			touches = [][]op{
+				{{K: "clean"}},
+				{{K: "weight", ID: 2, LW: 2, RW: 3}},
+			}
+		}
+		for _, t := range touches {
+			ops := append([]op{}, giveUp...)
+			ops = append(ops, put(3, "x")) // the replacement takes the address
+			ops = append(ops, t...)
+			ops = append(ops, put(4, "x"), op{K: "put", Grpc: true, P: payload{ID: 5, Addr: "x", Ver: "4.0.0"}}) // must clash with store 3
+			ops = append(ops, op{K: "heartbeat", ID: 3}, put(6, "x"))
+			out = append(out, caseIn{CV: "0.0.0", Boot: boot, Ops: ops})
+		}
+	}
+	return out
 }
 
 func (p pairRec) coq() string {
@@ -1426,6 +1469,9 @@ func main() {
 			l = []caseIn{ev.Replay.In}
 		}
 		fixed = append(fixed, l...)
+	}
+	if *replay == "" {
+		fixed = append(fixed, addressReuseCases()...)
 	}
 	var all []caseRec
 	emit := func(c caseRec) {
